@@ -190,6 +190,12 @@ def generate(ctx):
                 run.oblige("dataset-built-and-written", SBool(ds is not None and ds.written is not None), kind="post")
                 if ds is None:
                     return
+                # lossless: the encoding handed to to_netcdf may compress but must not narrow or quantise
+                enc = ds.written[1] if ds.written else None
+                LOSSLESS = {"zlib", "complevel", "shuffle", "chunksizes", "fletcher32", "contiguous"}
+                lossy = sorted({k for v in (enc or {}).values() for k in v if k not in LOSSLESS})
+                run.oblige("encoding-is-lossless (compression only; no dtype/scale/quantisation)", SBool(not lossy), kind="post",
+                           meta={"lossy_options": lossy})
                 dims = ["time", "tower", "z", "y", "x"] if dim3 else ["time", "tower", "y", "x"]
                 sp = [w.nzo, w.ny, w.nx] if dim3 else [w.ny, w.nx]
                 axes = [Axis(w.nt), Axis(w.ntow)] + [Axis(s) for s in sp]
